@@ -63,57 +63,57 @@ func Index(
 		for {
 			hdr, err := tr.Next()
 			if err != nil {
+				// Resynchronize: starting at the block where the header was expected, skip zero blocks (end-of-archive markers and padding, i.e. of a tar file created by GNU tar) and unparsable blocks one at a time. This can't be left to `tar.Reader`, which consumes the block after a lone zero block and with it the header of the next record
+				hdr = nil
+				pos := (int64(pipes.RecordSize)*record + block) * config.MagneticTapeBlockSize
+				buf := make([]byte, config.MagneticTapeBlockSize)
 				for {
-					curr, err := reader.Drive.Seek(0, io.SeekCurrent)
-					if err != nil {
+					if _, err := reader.Drive.Seek(pos, io.SeekStart); err != nil {
 						return err
 					}
 
-					nextTotalBlocks := math.Ceil(float64((curr)) / float64(config.MagneticTapeBlockSize))
-					record = int64(nextTotalBlocks) / int64(pipes.RecordSize)
-					block = int64(nextTotalBlocks) - (record * int64(pipes.RecordSize))
-
-					if block < 0 {
-						record--
-						block = int64(pipes.RecordSize) - 1
-					} else if block >= int64(pipes.RecordSize) {
-						record++
-						block = 0
-					}
-
-					// Seek to record and block
-					if _, err := reader.Drive.Seek(int64((pipes.RecordSize*config.MagneticTapeBlockSize*int(record))+int(block)*config.MagneticTapeBlockSize), io.SeekStart); err != nil {
-						return err
-					}
-
-					tr = tar.NewReader(reader.Drive)
-
-					hdr, err = tr.Next()
-					if err != nil {
-						if err == io.EOF {
+					if _, err := io.ReadFull(reader.Drive, buf); err != nil {
+						if err == io.EOF || err == io.ErrUnexpectedEOF {
 							// EOF
 							break
 						}
 
-						continue
+						return err
 					}
 
-					break
+					isZeroBlock := true
+					for _, b := range buf {
+						if b != 0 {
+							isZeroBlock = false
+
+							break
+						}
+					}
+
+					if !isZeroBlock {
+						if _, err := reader.Drive.Seek(pos, io.SeekStart); err != nil {
+							return err
+						}
+
+						tr = tar.NewReader(reader.Drive)
+
+						if hdr, err = tr.Next(); err == nil {
+							record = (pos / config.MagneticTapeBlockSize) / int64(pipes.RecordSize)
+							block = (pos / config.MagneticTapeBlockSize) - (record * int64(pipes.RecordSize))
+
+							break
+						}
+
+						hdr = nil
+					}
+
+					pos += config.MagneticTapeBlockSize
 				}
 			}
 
 			if hdr == nil {
-				// Try to skip over the next file mark; this makes it possible to append to a tar file created by i.e. GNU tar
-				if _, err := reader.Drive.Read(make([]byte, config.MagneticTapeBlockSize*2)); err != nil {
-					if err == io.EOF {
-						// EOF
-						break
-					}
-
-					return err
-				}
-
-				continue
+				// EOF
+				break
 			}
 
 			if i >= offset {
